@@ -7,6 +7,7 @@ from typing import TYPE_CHECKING, Any
 
 from xknx.core.value_reader import ValueReader
 from xknx.dpt import DPTArray, DPTBase, DPTBinary
+from xknx.exceptions import ConversionError
 from xknx.telegram import Telegram
 from xknx.telegram.address import DeviceAddressableType, parse_device_group_address
 from xknx.telegram.apci import GroupValueRead, GroupValueResponse, GroupValueWrite
@@ -106,4 +107,9 @@ def _parse_payload(
         return transcoder.to_knx(value)
     if isinstance(value, int):
         return DPTBinary(value)
-    return DPTArray(value)
+    try:
+        return DPTArray(value)
+    except TypeError as err:
+        raise ConversionError(
+            "Could not convert value to a raw payload", value=value
+        ) from err
